@@ -53,7 +53,9 @@ def apply_live(L, op):
         (p, v), = arg.items()
         setattr(L, p, v)
     elif kind == "setLatBase":
-        L.setLatBase(arg)
+        buf = numpy.array(arg, dtype=float)
+        L.setLatBase(buf)
+        buf *= 0.5          # the caller re-uses its float array afterwards: the lattice must not alias it
     elif kind == "copy":
         L = Lattice(L)
     elif kind == "rot":
